@@ -208,6 +208,24 @@ def k2(shape):
                     ok = True
             eng.prove(ok, 'K2: a header proof answered during a reorganisation verifies against no chain the daemon was on',
                       {'signature': 'K2-inflight-header-proof', 'h': h, 'cp': cp})
+        for r in st.requests:
+            if not (r['label'].startswith('query headers_proof') and r['done'] and r['error'] is None):
+                continue
+            start, count, cp = ast.literal_eval(r['label'][len('query headers_proof '):])
+            res = r['result']
+            ok = False
+            for cand in [st.main] + list(st.old_chains):
+                n = res['count']
+                if len(cand) <= cp or n < 1 or start + n > len(cand) or 'root' not in res:
+                    continue
+                last = start + n - 1
+                root = chain.ref_merkle_root([b.hash for b in cand[:cp + 1]])
+                if res['hex'] == b''.join(b.header for b in cand[start:start + n]).hex() and \
+                        hex_str_to_hash(res['root']) == root and \
+                        chain.ref_fold(cand[last].hash, [hex_str_to_hash(x) for x in res['branch']], last) == root:
+                    ok = True
+            eng.prove(ok, 'K2: headers with proof answered during a reorganisation are consistent with no chain the daemon was on',
+                      {'signature': 'K2-inflight-headers-proof', 'start': start, 'count': count, 'cp': cp})
         eng.prove(st.sim.db.state.height == tip, 'K2: the index is not at the daemon\'s height', {'signature': 'K2-height'})
         for h in range(0, tip + 1):
             for cp in range(max(h, 1), tip + 1):
@@ -270,6 +288,13 @@ def k2_shapes(tier):
                 'script': [('query', 0, 'header_proof', (1, 6)),
                            (('when', 'daemon:block_hex_hashes', 2), ('query', 0, 'header_proof', (1, 8))),
                            ('reorg', 4, [cbB, cbC, cbA, cbB, cbC])]})
+    # header(s) above the fork point read before the undo, their proof computed after the reorg: the reply must be
+    # of one chain
+    out.append({'initial': [cbA, cbB, cbC, cbA, cbB, cbC, cbA, cbB, cbC], 'deviations': 1, 'early': False, 'reorg_limit': 4,
+                'filter': 'db:',
+                'script': [(('when', 'daemon:block_hex_hashes', 2), ('query', 0, 'header_proof', (7, 8))),
+                           (('when', 'daemon:block_hex_hashes', 2), ('query', 0, 'headers_proof', (5, 3, 8))),
+                           ('reorg', 4, [cbB, cbC, cbA, cbB, cbC])]})
     # a transaction proof whose tx-hash read starts just before the undo (while the reorg range is being worked out) and
     # may be delivered (postponed) after the reorg handler cleared the caches, before the next notification
     out.append({'initial': INITIAL, 'deviations': 1, 'early': False, 'hold': True, 'reorg_limit': 4,
@@ -305,7 +330,7 @@ KERNELS = [
            encodes=['electrumx/lib/merkle.py:MerkleCache._extend_to', '_level_for', 'truncate', 'branch_and_root',
                     'electrumx/server/db.py:DB.backup_fs', 'header_branch_and_root', 'populate_header_merkle_cache',
                     'electrumx/server/session.py:SessionManager._handle_chain_reorgs', 'tx_hashes_at_blockheight'],
-           bounds='6 stories (x2 deviation budgets in thorough) on a 6..9-block start with reorg limit 4; interleaving '
+           bounds='7 stories (x2 deviation budgets in thorough) on a 6..9-block start with reorg limit 4; interleaving '
                   'as in C07',
            outside='as C07', assumptions=['as C07'], witnesses=1, split_depth=1),
 ]
